@@ -41,7 +41,7 @@ from geometer.utils import adjugate, det, hat_matrix, inv, is_multiple, matmul, 
 if TYPE_CHECKING:
     from typing_extensions import Unpack
 
-    from geometer.utils.typing import NDArrayParameters, TensorParameters
+    from geometer.utils.typing import NDArrayParameters, TensorIndex, TensorParameters
 
 
 class QuadricTensor(ProjectiveTensor, ABC):
@@ -275,6 +275,13 @@ class Quadric(QuadricTensor, BoundTensor):
 
 class QuadricCollection(QuadricTensor, TensorCollection[Quadric]):
     _element_class = Quadric
+
+    def __getitem__(self, index: TensorIndex) -> Tensor | np.generic:
+        result = super().__getitem__(index)
+        if isinstance(result, QuadricTensor):
+            # the elements of a collection of dual quadrics are dual quadrics
+            result.is_dual = self.is_dual
+        return result
 
 
 class Conic(Quadric):
